@@ -138,6 +138,29 @@ impl Recorder {
     }
 
     /// The name a system is registered under in this variant.
+    /// The spelling of a dependency list in this variant: order shuffled, names repeated (also
+    /// non-adjacently) - the dependency STRUCTURE is unchanged.
+    fn variant_deps(&mut self, deps: &[String], bidx: usize) -> Vec<String> {
+        let mut out: Vec<String> = deps.iter().map(|d| self.variant.rename_in(d, bidx)).collect();
+        if self.variant.shuffle_lists && !out.is_empty() {
+            out.shuffle(&mut self.rng);
+            if self.variant.dup_lists && self.rng.gen_bool(0.5) {
+                let x = out.choose(&mut self.rng).unwrap().clone();
+                let pos = self.rng.gen_range(0..=out.len());
+                out.insert(pos, x);
+            }
+        }
+        out
+    }
+
+    fn variant_name_in(&mut self, name: &str, bidx: usize) -> String {
+        let n = self.variant_name(name);
+        if n.is_empty() || n.starts_with("toggled name") {
+            return n;
+        }
+        self.variant.rename_in(name, bidx)
+    }
+
     fn variant_name(&mut self, name: &str) -> String {
         if self.variant.toggle_names && !self.sensitive.contains(name) && self.rng.gen_bool(0.5) {
             if name.is_empty() {
@@ -344,8 +367,8 @@ impl Recorder {
                     let gid = self.next_gid;
                     self.next_gid += 1;
                     let acc = self.make_acc(r, w);
-                    let rname = self.variant_name(name);
-                    let rdeps: Vec<String> = deps.iter().map(|d| self.variant.rename_of(d)).collect();
+                    let rname = self.variant_name_in(name, bidx);
+                    let rdeps: Vec<String> = self.variant_deps(deps, bidx);
                     let before = b.verif_layout();
                     let sys = HSys {
                         gid,
@@ -376,8 +399,8 @@ impl Recorder {
                     let (ib, iidx) = self.build(inner);
                     let gid = self.next_gid;
                     self.next_gid += 1;
-                    let rname = self.variant_name(name);
-                    let rdeps: Vec<String> = deps.iter().map(|d| self.variant.rename_of(d)).collect();
+                    let rname = self.variant_name_in(name, bidx);
+                    let rdeps: Vec<String> = self.variant_deps(deps, bidx);
                     let before = b.verif_layout();
                     let ctx = self.ctx.clone();
                     let out = catch_unwind(AssertUnwindSafe(|| {
@@ -432,6 +455,10 @@ impl Recorder {
         if self.variant.extra_barriers && self.rng.gen_bool(0.3) {
             b.add_barrier();
             self.events.push(json!({"ev":"barrier","b":bidx}));
+        }
+        if bidx != 1 {
+            // inner builders are printed once, when complete (the top-level one by the caller)
+            self.print(bidx, &b);
         }
         (b, bidx)
     }
